@@ -27,7 +27,7 @@ import (
 	"github.com/Comcast/sheens/interpreters/ecmascript"
 	"github.com/Comcast/sheens/match"
 
-	yaml "gopkg.in/yaml.v2"
+	yaml "github.com/jsccast/yaml"
 )
 
 var (
